@@ -96,6 +96,10 @@ pub fn gen_app(g: &mut Gen, depth: usize, params_used: usize, fangs_ok: bool) ->
     let mut param_mount = false;
     let mut mounts: Vec<Item> = Vec::new();
     let relax = !fangs_ok && depth == 0 && t::chance(1, 3);
+    // (wave 15) with fangs: the enclosing application registers a route at or below the mount point of an application that is
+    // itself mounted inside a mounted one, all prefixes static (with a param among them “under the prefix” would be ambiguous,
+    // C04's side condition): its fangs and those of every application on the way govern that route too
+    let deep = fangs_ok && depth == 0 && t::chance(1, 4);
     if depth < 2 {
         let n_mounts = t::weighted(&[5, 3, 1]);
         for _ in 0..n_mounts {
@@ -200,7 +204,28 @@ pub fn gen_app(g: &mut Gen, depth: usize, params_used: usize, fangs_ok: bool) ->
             }
         }
     }
-    if relax {
+    if deep && !param_mount {
+        let pick: Option<String> = items.iter().find_map(|it| match it {
+            Item::Mount { prefix, app } if !prefix.contains(':') => app.items.iter().find_map(|ci| match ci {
+                Item::Mount { prefix: p2, .. } if !p2.contains(':') => Some(format!("{prefix}{p2}")),
+                _ => None,
+            }),
+            _ => None,
+        });
+        if let Some(at) = pick {
+            let pr = match t::draw(3) {
+                0 => at,
+                1 => format!("{at}/{}", t::pick(&STATICS)),
+                _ => format!("{at}/{}/{}", t::pick(&STATICS), t::pick(&STATICS)),
+            };
+            if !patterns.contains(&unify(&pr)) {
+                patterns.push(unify(&pr));
+                let m = gen_methods(g, 0, fangs_ok);
+                items.push(Item::Routes { path: pr, methods: m });
+            }
+        }
+    }
+    if relax || (deep && !param_mount) {
         // one handler per (route, method): where the enclosing application collides with a mounted one, it gives way
         let mut taken: Vec<(Vec<Seg>, String)> = Vec::new();
         fn collect(app_items: &[Item], prefix: &[Seg], taken: &mut Vec<(Vec<Seg>, String)>) {
